@@ -729,7 +729,7 @@ impl Instruction
 			{
 				if !flags || dst >= Register::R8 || rhs >= Register::R8
 				{
-					if lhs != dst || (lhs == Register::PC && rhs == Register::PC)
+					if flags || lhs != dst || (lhs == Register::PC && rhs == Register::PC)
 					{
 						return Err(EncodeError::Unrepresentable);
 					}
